@@ -961,3 +961,116 @@ def check_c09(tier, replay):
                         len(summ["violations"]))
     known_hits = [dict(k2, **all_known[k2["key"]]) for k2 in summ["known"] if k2["key"] in all_known]
     return vlib.finish(prop, summ["violations"], known_hits)
+
+
+# ---------------------------------------------------------------------------
+# C13  Crash.tla  <->  child processes dying at armed probes (hook H2)
+
+CRASH_INVS = ["OpensAfterCrash", "LogBeforeOrAfter", "FolderEqReplayAfterRecover"]
+
+
+@register("C13")
+def check_c13(tier, replay):
+    prop = "C13"
+    t0 = time.time()
+    wd = vlib.workdir("%s_%s" % (prop, tier))
+    known = vlib.known_keys(prop)
+    scratch = vlib.scratch_base(prop)
+    if replay:
+        vlib.cargo_build()
+        v = json.load(open(replay))
+        d = v.get("detail", v)
+        pfile = os.path.join(wd, "replay.ndjson")
+        with open(pfile, "w") as f:
+            f.write(json.dumps(d["case"]) + "\n")
+        summ = vlib.run_harness([vlib.harness_bin("replay"), "crash", pfile, scratch],
+                                env={"VERIF_KNOWN": ",".join(sorted(known))})
+        for x in summ["violations"]:
+            log("REPLAY-DIVERGENCE " + x["summary"][:1500])
+        return 1 if summ["violations"] else 0
+    maxops = "2" if tier == "quick" else "3"
+    devs = sorted({"NoReconcile"} & {k["deviation"] for k in known.values() if "deviation" in k})
+    states = trans = 0
+    cases = []
+    for backend in ("fs", "db"):
+        consts = {"Slots": '{"s1", "s2"}', "Values": '{"v1", "v2"}', "MaxOps": maxops,
+                  "Backend": '"%s"' % backend, "Deviations": "{}", "EmitCases": "FALSE"}
+        # (1) the intended design is crash safe at every step boundary
+        cfg = vlib.render_cfg("MC_Crash.cfg", consts, os.path.join(wd, "prop_%s.cfg" % backend))
+        r = vlib.run_tlc("MC_Crash", cfg, prop + "p" + backend, timeout_s=1800, coverage=False)
+        if r.violated:
+            raise ToolError("intended Crash spec violates %s" % r.violated)
+        states += r.distinct
+        trans += r.generated
+        # (2) the code-faithful model: every crashed-and-recovered state is one case
+        cfg = vlib.render_cfg("MC_Crash.cfg", dict(consts, Deviations=dev_set(devs), EmitCases="TRUE"),
+                              os.path.join(wd, "emit_%s.cfg" % backend))
+        txt = open(cfg).read()
+        for inv in CRASH_INVS:
+            txt = txt.replace("  %s\n" % inv, "")
+        open(cfg, "w").write(txt)
+        vlib.run_tlc("MC_Crash", cfg, prop + "e" + backend, timeout_s=1800, coverage=False,
+                     tag_sink=lambda tag, obj: cases.append(obj) if tag == "CASE" else None)
+    if not cases:
+        raise ToolError("TLC emitted no crash cases")
+    # crash before the first write of an operation is the trivial 'before' case
+    cases = [c for c in cases if not c["crash"].endswith(":1")]
+    import random
+    rng = random.Random(vlib.seed())
+    if tier == "quick" and len(cases) > 400:
+        # keep every (backend, crash point) and sample the pre-histories
+        by = {}
+        for c in cases:
+            by.setdefault((c["backend"], c["crash"]), []).append(c)
+        cases = []
+        for k2 in sorted(by):
+            lst = by[k2]
+            rng.shuffle(lst)
+            cases += lst[:max(6, 400 // len(by))]
+    vlib.cargo_build()
+    chunks = 12
+    files = [open(os.path.join(wd, "cases_%02d.ndjson" % i), "w") for i in range(chunks)]
+    for i, c in enumerate(cases):
+        files[i % chunks].write(json.dumps(c) + "\n")
+    for f in files:
+        f.close()
+    inputs = [os.path.join(wd, "cases_%02d.ndjson" % i) for i in range(chunks)
+              if os.path.getsize(os.path.join(wd, "cases_%02d.ndjson" % i)) > 0]
+    summ = vlib.run_harness_parallel(
+        lambda p: [vlib.harness_bin("replay"), "crash", p, os.path.join(scratch, os.path.basename(p)[:8])],
+        inputs, jobs=12, timeout_s=3000, env={"VERIF_KNOWN": ",".join(sorted(known))})
+    cover = {
+        "evaluations": summ["evaluated"], "distinct_nontrivial": len(set(summ["nontrivial_keys"])),
+        "rule": "Crash.tla refines create/update/delete of a secret and folder compaction into their "
+                "persisted write steps (vault rows, event log, snapshot, account log) for the file-system and "
+                "the sqlite backend; TLC enumerates every pre-history of up to %s operations x crashing "
+                "operation x step boundary and shows the intended design (atomic log replacement, vault "
+                "rebuilt from the log on open) recovers in all of them. Every crashed state of the "
+                "code-faithful model is one case: a child process performs the pre-history on a real "
+                "account, arms the probe of that step boundary (hook H2) and dies there by abort(); the "
+                "parent re-opens the account through the normal path and checks: it opens, the folder log "
+                "has the length before or after the operation, reduce(log) = served = persisted, integrity "
+                "report clean. Non-trivial = case in which the child really died at the probe; distinct by "
+                "(backend, crash point, history)." % maxops,
+        "samples": summ["samples"][:3], "states": states, "transitions": trans,
+        "exhaustive": tier != "quick", "cases": len(cases), "processes_killed": summ["steps"],
+        "counters": summ["counters"], "deviations_modelled": devs,
+        "model_mismatches": len(summ["mismatches"]),
+    }
+    assumptions = ["process death only: the file system applies completed writes in program order (no power-loss "
+                   "reordering); torn writes inside one write() call are not yet enumerated",
+                   "probe placement (MANIFEST.hooks) names the step boundaries of Crash.tla"]
+    vlib.write_evidence(prop, tier, "fault_enumeration", cover, assumptions, time.time() - t0,
+                        len(summ["violations"]))
+    known_hits = [dict(k2, **known[k2["key"]]) for k2 in summ["known"] if k2["key"] in known]
+    keys = sorted({v.get("detail", {}).get("key", "?") for v in summ["violations"]})
+    if keys:
+        log("[C13] distinct failing (crash point, class): %s" % " ".join(keys))
+    # one replay per distinct key is enough
+    seen, uniq = set(), []
+    for v in summ["violations"]:
+        k2 = v.get("detail", {}).get("key", "?")
+        if k2 not in seen:
+            seen.add(k2)
+            uniq.append(v)
+    return vlib.finish(prop, uniq, known_hits)
